@@ -506,6 +506,46 @@ inline void run_c18(Chooser& c, vf::Stats& st, bool record, std::string& text) {
             unsigned n = site == 3 ? 16 + c.range(0, 4) : 200 + c.range(0, 80);
             std::vector<std::string> keys;
             std::set<std::string> seen;
+            if (site == 3 && c.chance(2, 3)) {
+                // directed: a full border of 15 tuples, then a 16th key that is a close relative of the entry at the split point
+                // (rank 8 = first entry of the right half) or of its left neighbour: same slice with another length, the 8-byte key
+                // of a link, the link of an 8-byte key, last byte +-1.  This is where the side decision has to get the tie-breaks right.
+                std::vector<Tup> ts;
+                for (int guard = 0; ts.size() < 15 && guard < 200; ++guard) {
+                    Tup t = gen_tuple(c);
+                    bool dup = false;
+                    for (auto& o : ts) {
+                        if (vf::ref_tuple_cmp(o.s, o.l, t.s, t.l) == 0) { dup = true; }
+                    }
+                    if (!dup) { ts.push_back(t); }
+                }
+                if (ts.size() == 15) {
+                    std::vector<Tup> sorted = ts;
+                    std::sort(sorted.begin(), sorted.end(), [](const Tup& x, const Tup& y) { return vf::ref_tuple_cmp(x.s, x.l, y.s, y.l) < 0; });
+                    // insertion order of the 15: generated
+                    std::uint32_t sd = c.range(1, 65535);
+                    for (std::size_t i = ts.size(); i > 1; --i) {
+                        sd = sd * 1103515245U + 12345U;
+                        std::swap(ts[i - 1], ts[(sd >> 8U) % i]);
+                    }
+                    for (auto& t : ts) { keys.push_back(t.witness); }
+                    const Tup& e = sorted[c.chance(3, 4) ? 8 : 7];
+                    std::string nk = e.witness;
+                    switch (c.range(0, 5)) {
+                        case 0: if (!nk.empty()) { nk.pop_back(); } break;                // shorter by one (link -> its 8-byte key)
+                        case 1: nk.push_back('\0'); break;                                // longer by a zero byte
+                        case 2: nk.push_back('x'); break;                                  // longer (8-byte key -> link)
+                        case 3: if (!nk.empty()) { nk.back() = static_cast<char>(static_cast<unsigned char>(nk.back()) - 1); } break;
+                        case 4: if (!nk.empty()) { nk.back() = static_cast<char>(static_cast<unsigned char>(nk.back()) + 1); } break;
+                        default: nk = nk.substr(0, nk.size() / 2);
+                    }
+                    nk = nk.substr(0, 9);
+                    keys.push_back(nk);
+                    for (auto& k : keys) { seen.insert(k.substr(0, 9)); }
+                    n = 0; // nothing more to generate
+                    tx << "directed split: 15 tuples + \"" << vf::show(nk) << "\" next to the split point; ";
+                }
+            }
             for (unsigned i = 0; i < n * 2 && keys.size() < n; ++i) {
                 Tup t = gen_tuple(c);
                 std::string k = t.witness;
